@@ -1,6 +1,11 @@
 (** Property C12: the parser accepts exactly the documented grammar and builds the intended tree.
     Statements only; proofs live in [proofs/]. *)
-From WacV Require Import Str Ord Token Lexer LexTables LexImpl LexSpec LexTablesProofs.
+From WacV Require Import Str Ord Token Lexer LexTables LexImpl LexSpec LexTablesProofs LexerProofs LexerSound.
+From WacV Require Import Semver Ast Parser Grammar ParserComb ParserProofs ParserTop.
+From Coq Require Import Lia.
+Local Open Scope nat_scope.
+
+(* ------------------------------------------------------------------ tables *)
 
 (** The keyword table generated from [lexer.rs] is the documented one (as a set of rows). *)
 Theorem keywords_eq_documented : sort_rows gen_keywords = sort_rows doc_keywords.
@@ -15,3 +20,142 @@ Print Assumptions symbols_eq_documented.
 Theorem forbidden_eq_documented : map norm_arm gen_screen_arms = map norm_arm doc_screen_arms.
 Proof. exact screen_arms_eq. Qed.
 Print Assumptions forbidden_eq_documented.
+
+(* ------------------------------------------------------------------ screening *)
+
+(** [screen_spec]: the screening reports the FIRST forbidden code point (bidirectional override,
+    deprecated, control other than tab/LF/CR) with the byte offset of its first byte and its UTF-8
+    length; it reports nothing iff the text contains none. *)
+Theorem screen_spec src :
+  (forall e sp, screen impl_cfg src = Some (e, sp) ->
+     exists pre c post, src = pre ++ c :: post /\ forallb (fun x => negb (doc_forbidden x)) pre = true /\
+                        doc_forbidden c = true /\ sp = {| off := byte_len pre; slen := utf8_len c |}) /\
+  (screen impl_cfg src = None <-> forallb (fun x => negb (doc_forbidden x)) src = true).
+Proof. split; [intros e sp; apply screen_spec_some|apply screen_spec_none]. Qed.
+Print Assumptions screen_spec.
+
+(** Any text containing a forbidden code point, wherever it occurs, is rejected by [Document::parse]
+    (under any deviation flags) with a lexer error located at the first such code point. *)
+Theorem rejects_forbidden_anywhere d src pre c post :
+  src = pre ++ c :: post -> forallb (fun x => negb (doc_forbidden x)) pre = true -> doc_forbidden c = true ->
+  exists e, parse_document d impl_cfg src = PErr (PE_Lexer e {| off := byte_len pre; slen := utf8_len c |}).
+Proof.
+  intros Hs Hp Hc. destruct (screen_rejects _ _ _ _ Hs Hp Hc) as (e & He). exists e.
+  unfold parse_document, lex. unfold screen in *. cbn [arms cfg_with impl_cfg] in *. rewrite He. reflexivity.
+Qed.
+Print Assumptions rejects_forbidden_anywhere.
+
+(* ------------------------------------------------------------------ lexer *)
+
+(** [lex_sound_partial]. FULL statement (DESIGN): token spans are contiguous-or-separated-by-skippable
+    material, in bounds, on character boundaries, AND every token text belongs to the class of its
+    kind, AND the stream never ends in the out-of-fuel item. PROVED here: the tiling part -- the source
+    is [gap0 ++ text1 ++ gap1 ++ ... ] where every gap is white space / line comments / nested block
+    comments, every token's text is the slice at its span, its offset is the UTF-8 byte length of the
+    character prefix before it (hence on a character boundary), its length the byte length of its
+    text; the first error / unmodelled item is located after skippable material; all spans are inside
+    the source. MISSING: membership of identifier / package-name texts in their regular classes,
+    exclusion of the [LFuel] item by a sufficient-fuel lemma, and [lex_longest] (maximal munch). *)
+Theorem lex_sound_partial cfg src :
+  screen cfg src = None ->
+  tiles 0 src (lex cfg src) /\
+  Forall (fun it => match it with
+                    | LTok t => (off (tsp t) + slen (tsp t) <= byte_len src)%N
+                    | _ => True end) (lex cfg src).
+Proof.
+  intros Hs. unfold lex. rewrite Hs. split; [apply lex_loop_tiles|].
+  eapply Forall_impl; [|apply (tiles_bounds 0%N src); apply lex_loop_tiles].
+  intros [t| | | |]; auto. cbn. lia.
+Qed.
+Print Assumptions lex_sound_partial.
+
+(* ------------------------------------------------------------------ parser vs grammar *)
+
+(** [G d] : the grammar of spec/Grammar.v under deviation flags [d]; [G_doc] = LANGUAGE.md as written,
+    [G_impl] = the flags the parser realises. [g_document d ts [] doc]: the token stream [ts] derives,
+    up to its end, a document with tree [doc] (tree-indexed derivation relation). *)
+
+(** [parse_sound]: whenever [Document::parse] (the model, for ANY flags [d] and lexer tables) accepts a
+    source, its whole token stream is derived by the grammar under the same flags, and the tree
+    returned is the tree the derivation dictates. *)
+Theorem parse_sound d base src doc r :
+  parse_document d base src = POk doc r -> r = [] /\ g_document d (lex (cfg_with d base) src) [] doc.
+Proof. apply parse_document_sound. Qed.
+Print Assumptions parse_sound.
+
+(** [parse_complete]: conversely every derivation of the whole token stream is found by the parser,
+    which returns exactly the derivation's tree; the fuel [length tokens + 1] that [parse_document]
+    provides suffices (no [PFuel], no panic outcome). *)
+Theorem parse_complete d base src doc :
+  g_document d (lex (cfg_with d base) src) [] doc -> parse_document d base src = POk doc [].
+Proof. apply parse_document_complete. Qed.
+Print Assumptions parse_complete.
+
+(** Accepted exactly when derivable, with the derivation's tree -- for the implementation ... *)
+Theorem parse_exact_impl src doc :
+  parse_document impl_flags impl_cfg src = POk doc [] <-> g_document impl_flags (lex impl_cfg src) [] doc.
+Proof.
+  split; [intros H; now apply parse_sound in H|apply (parse_complete impl_flags impl_cfg)].
+Qed.
+Print Assumptions parse_exact_impl.
+
+(** ... and the same recogniser under [doc_flags] and the documented tables decides the documented
+    language (this is the [G_doc] recogniser the correspondence runs). *)
+Theorem parse_exact_doc src doc :
+  parse_document doc_flags doc_cfg src = POk doc [] <-> g_document doc_flags (lex doc_cfg src) [] doc.
+Proof.
+  split; [intros H; now apply parse_sound in H|apply (parse_complete doc_flags doc_cfg)].
+Qed.
+Print Assumptions parse_exact_doc.
+
+(** The tree of an accepted document is unique (the grammar is unambiguous on whole inputs). *)
+Theorem derivation_tree_unique d base src doc1 doc2 :
+  g_document d (lex (cfg_with d base) src) [] doc1 -> g_document d (lex (cfg_with d base) src) [] doc2 -> doc1 = doc2.
+Proof.
+  intros H1 H2. apply (parse_complete d base) in H1. apply (parse_complete d base) in H2. congruence.
+Qed.
+Print Assumptions derivation_tree_unique.
+
+(** Where the fill [...] may stand under the documented flags (the one side condition of the grammar
+    that is written as a boolean function, [args_ok], rather than as productions): exactly
+    [arg (',' arg)* (',' '...')?] with at least one proper argument, and nothing after the [...]. *)
+Theorem fill_placement_documented args tr :
+  args_ok doc_flags args tr = true <->
+  exists init, init <> [] /\ forallb (fun a => negb (is_fill a)) init = true /\
+               (args = init \/ (exists sp, args = init ++ [AFill sp] /\ tr = false)).
+Proof. apply args_ok_doc_spec. Qed.
+Print Assumptions fill_placement_documented.
+
+(** [impl_vs_doc_delta]: for each deviation flag a text accepted by one grammar and not the other
+    (first ten: implementation accepts, LANGUAGE.md does not; last two: the reverse). The flag
+    [pkg_separator_zone] has no witness here: the model does not predict those lexemes.
+    Not proved (stated only): for token streams that use no deviation, G_doc and G_impl derive the
+    same trees. *)
+Theorem impl_vs_doc_delta :
+  map (fun s => (accepts_impl s, accepts_doc s))
+      [w_arrow_empty_results; w_result_underscore_forms; w_uppercase_words; w_empty_new_args; w_fill_alone;
+       w_fill_anywhere; w_empty_use_items; w_empty_include_with; w_dangling_dash; w_keyword_colon;
+       w_named_results; w_borrow_any_type]
+  = [(true, false); (true, false); (true, false); (true, false); (true, false);
+     (true, false); (true, false); (true, false); (true, false); (true, false);
+     (false, true); (false, true)].
+Proof. exact delta_witnesses. Qed.
+Print Assumptions impl_vs_doc_delta.
+
+(** Non-vacuity: a document using packages with versions, a function type, a `new` expression with an
+    inferred argument and a trailing fill, a postfix access and a renamed export is accepted by both
+    grammars with the same tree; hence (by [parse_sound]) both derivation relations are inhabited. *)
+Example both_grammars_inhabited :
+  exists doc, g_document impl_flags (lex impl_cfg w_common) [] doc /\ g_document doc_flags (lex doc_cfg w_common) [] doc.
+Proof.
+  destruct common_accepted as [Hok Heq].
+  destruct (parse_document impl_flags impl_cfg w_common) as [doc r| | | |] eqn:E; try discriminate Hok.
+  destruct r; try discriminate Hok. exists doc. split.
+  - now apply (parse_sound impl_flags impl_cfg) in E.
+  - symmetry in Heq. now apply (parse_sound doc_flags doc_cfg) in Heq.
+Qed.
+
+(* Stated, not proved in this development (see [lex_sound_partial] above for what is):
+   lex_sound (class membership of token texts), lex_longest (maximal munch).
+   Both are exercised by the correspondence (token streams with spans are compared on every
+   unmutated document, and 1.8 M random lexemes were compared when the model was built). *)
